@@ -7,8 +7,8 @@ import (
 	"encoding/json"
 	"fmt"
 	"math/big"
-	"sort"
 	"regexp"
+	"sort"
 	"strconv"
 	"strings"
 	"sync"
@@ -282,12 +282,31 @@ func runKflEval(p sx.Sx) sx.Sx {
 	if parsed2, err2 := oj.ParseString(newJson2); err2 == nil && perr == nil {
 		sameRec = deepCanon(parsed2).String() == rec.String()
 	}
-	// C18: concurrent evaluations of the shared prepared query
+	// C18: concurrent evaluations of the shared prepared query - half of the goroutines on this record, half
+	// on a variant of it whose values differ (a goroutine that picks up another one's record or operand then
+	// answers for the wrong record); each compared with the sequential answer for its own record
+	variant := strings.NewReplacer("hello", "jello", "5", "6", "1", "2", "Chevrolet", "Camaro", "\"x\"", "\"w\"").Replace(record)
+	truthV, recV, haveV := false, "", false
+	func() {
+		defer func() { _ = recover() }()
+		if tv, jv, ev := kfl.Eval(expr, variant); ev == nil {
+			if pv, e := oj.ParseString(jv); e == nil {
+				truthV, recV, haveV = tv, deepCanon(pv).String(), true
+			}
+		}
+	}()
+	rounds := 2
+	for _, h := range []string{"json()", "xml()", "now()", "seconds(", "minutes(", "hours(", "days(", "datetime(", "redact("} {
+		if strings.Contains(expanded, h) {
+			rounds = 24
+		}
+	}
 	conc := true
 	var wg sync.WaitGroup
 	var mu sync.Mutex
 	for g := 0; g < 8; g++ {
 		wg.Add(1)
+		onVariant := haveV && g%2 == 1
 		go func() {
 			defer wg.Done()
 			defer func() {
@@ -297,17 +316,23 @@ func runKflEval(p sx.Sx) sx.Sx {
 					mu.Unlock()
 				}
 			}()
-			t3, j3, err3 := kfl.Eval(expr, record)
-			okc := err3 == nil && t3 == truth
-			if okc {
-				if p3, e3 := oj.ParseString(j3); e3 != nil || deepCanon(p3).String() != rec.String() {
-					okc = false
+			for k := 0; k < rounds; k++ {
+				in, wantT, wantR := record, truth, rec.String()
+				if onVariant {
+					in, wantT, wantR = variant, truthV, recV
 				}
-			}
-			if !okc {
-				mu.Lock()
-				conc = false
-				mu.Unlock()
+				t3, j3, err3 := kfl.Eval(expr, in)
+				okc := err3 == nil && t3 == wantT
+				if okc {
+					if p3, e3 := oj.ParseString(j3); e3 != nil || deepCanon(p3).String() != wantR {
+						okc = false
+					}
+				}
+				if !okc {
+					mu.Lock()
+					conc = false
+					mu.Unlock()
+				}
 			}
 		}()
 	}
@@ -346,10 +371,12 @@ type node struct {
 }
 
 var kflNumbers = []string{"0", "1", "2", "3", "5", "7", "12", "42", "100", "1234567", "1000000", "1.5", "3.14", "0.1", "2.5", "1234567.4", "999999", "10000000", "16777217", "20000001", "123456789", "0.1000000001", "4294967297"}
-var kflStrings = []string{"", "hello", "x", "y", "12", "5", "1.5", "true", "null", "Chevrolet", "he", "lo", "api", "v1", "[REDACTED]"}
+var kflStrings = []string{"", "hello", "x", "y", "12", "5", "1.5", "true", "null", "Chevrolet", "he", "lo", "api", "v1", "[REDACTED]",
+	// values that contain what an anchored literal pattern names without being equal to it
+	"hello world", "say hello", "xhellox", "v10", "/api/v1", "xx", "hey"}
 var kflNumRe = regexp.MustCompile(`[0-9]+(\.[0-9]+)?`)
 
-var kflRegexes = []string{"h.*", "hel+o", "^he", "lo$", "x?y", ".*", "^hello$", "a.c", "z+"}
+var kflRegexes = []string{"h.*", "hel+o", "^he", "lo$", "x?y", ".*", "^hello$", "a.c", "z+", "^v1$", "^api$", "^x$", "^he$", "hello", "^hello", "hello$", "^$"}
 var kflPaths = []string{"a", "b", "c", "d", "d.e", "d.n", "f", "s", "n", "t", "big", "neg", "arr", "zz", "d.zz", "c.*", "arr.*.x", "a.b.c", "d..e", "u.v.w",
 	"H.ContentType", "H.XId", "Hdr.Missing"}
 
@@ -708,10 +735,19 @@ func genKflEval(r *Rand, tier string, emit func(sx.Sx)) {
 			}
 			return sArr(out...)
 		}
+		strs := func(xs ...string) sx.Sx {
+			var out []sx.Sx
+			for _, x := range xs {
+				out = append(out, sStr(x))
+			}
+			return sArr(out...)
+		}
 		arrays := [][2]sx.Sx{{ints(2, 3), ints(1, 2)}, {ints(5, 5), ints(5, 5)}, {ints(1, 2, 3), ints(3, 4)}, {ints(4, 6), ints(1, 2)},
 			{ints(2), ints(2)}, {ints(1, 2), ints(2, 3)}, {ints(7, 8), ints(7)},
 			// document order is part of an array's value: unsorted arrays, the same elements in another order
-			{ints(3, 1, 2), ints(3, 1, 2)}, {ints(2, 1), ints(1, 2)}, {ints(10, 9), ints(10, 9)}, {ints(3, 1, 2), ints(1, 2, 3)}}
+			{ints(3, 1, 2), ints(3, 1, 2)}, {ints(2, 1), ints(1, 2)}, {ints(10, 9), ints(10, 9)}, {ints(3, 1, 2), ints(1, 2, 3)},
+			// arrays of strings, numeric and not: ordering converts them for the comparison only
+			{strs("10", "9", "8"), strs("1", "2")}, {strs("1.5", "2"), strs("3")}, {strs("x", "y"), strs("z")}, {strs("2", "b"), ints(1, 2)}}
 		for _, ab := range arrays {
 			for _, op := range []string{"==", "!=", ">=", "<=", ">", "<"} {
 				for _, order := range [][2]string{{"c.*", "e.*"}, {"e.*", "c.*"}, {"c", "e"}, {"c.*", "e"}, {"c", "e.*"}} {
@@ -724,6 +760,30 @@ func genKflEval(r *Rand, tier string, emit func(sx.Sx)) {
 					}
 					e := wrapE(wrapL(q))
 					emit(sx.L(sx.S(e.text), e.ast, obj(sx.S("c"), ab[0], sx.S("e"), ab[1])))
+				}
+			}
+		}
+	}
+	// coherence block 3: a pattern that is an anchored literal (or a bare one) against values that are equal to
+	// it, contain it, start or end with it - through a plain path and through a wildcard over an array
+	{
+		ident := func(p string) node { return callNode(p, sx.A("noparams"), sx.A("nosel"), p) }
+		obj := func(kv ...sx.Sx) sx.Sx { return sx.L(append([]sx.Sx{sx.A("o")}, pairs(kv)...)...) }
+		for _, rx := range []string{"^GET$", "^v1$", "GET", "^GET", "GET$", "^$", "^/api$"} {
+			for _, val := range []string{"GET", "TARGET-X", "GETS", "xGET", "v1", "v10", "/api", "/api/v1/users", ""} {
+				for _, op := range []string{"==", "!="} {
+					for _, pth := range []string{"m", "seg.*"} {
+						re := node{"r\"" + rx + "\"", sx.L(sx.A("re"), sx.S(rx))}
+						for _, flip := range []bool{false, true} {
+							l, rr := ident(pth), re
+							if flip {
+								l, rr = re, ident(pth)
+							}
+							q := node{l.text + " " + op + " " + rr.text, sx.L(sx.A("Q"), wrapC(wrapU(l)).ast, sx.A(op), wrapQ(wrapC(wrapU(rr))).ast)}
+							e := wrapE(wrapL(q))
+							emit(sx.L(sx.S(e.text), e.ast, obj(sx.S("m"), sStr(val), sx.S("seg"), sArr(sStr("api"), sStr(val), sStr("users")))))
+						}
+					}
 				}
 			}
 		}
